@@ -194,6 +194,14 @@ class Report:
         self.disagreements_checked = 0
         self.exhaustive = None
         self._known = [k for k in load_known_findings() if k.get("property") == prop]
+        # replays of earlier runs of this property are stale once a new run starts
+        if os.path.isdir(REPLAY_DIR):
+            for f in os.listdir(REPLAY_DIR):
+                if f.startswith(prop + "-") and f.endswith(".json"):
+                    try:
+                        os.remove(os.path.join(REPLAY_DIR, f))
+                    except OSError:
+                        pass
 
     # --- counting
     def count(self, key: str, n: int = 1):
